@@ -35,7 +35,7 @@ from octave_mcp.core.emitter import emit
 from octave_mcp.core.gbnf_compiler import GBNFCompiler
 from octave_mcp.core.hydrator import resolve_hermetic_standard
 from octave_mcp.core.lexer import LexerError, tokenize
-from octave_mcp.core.parser import ParserError, parse, parse_with_warnings
+from octave_mcp.core.parser import ParserError, _strip_yaml_frontmatter, parse, parse_with_warnings
 from octave_mcp.core.repair import repair
 from octave_mcp.core.repair_log import LiteralZoneRepairLog
 from octave_mcp.core.schema_extractor import SchemaDefinition
@@ -1324,7 +1324,11 @@ class WriteTool(BaseTool):
             else:
                 # Strict tokenization + strict parse
                 try:
-                    _, tokenize_repairs = tokenize(parse_input)
+                    # Issue #91: YAML frontmatter is not OCTAVE; strip it (line numbers are
+                    # preserved) exactly as parse() does, otherwise a canonical file whose
+                    # frontmatter contains e.g. parentheses is refused with E_TOKENIZE.
+                    tokenize_input, _ = _strip_yaml_frontmatter(parse_input)
+                    _, tokenize_repairs = tokenize(tokenize_input)
                 except Exception as e:
                     return self._error_envelope(
                         target_path,
